@@ -181,7 +181,7 @@ Proof.
 Qed.
 
 Lemma covered_wraps tb c m :
-  meth_covered tb c m = true -> m <> MGet -> wraps tb c m = true.
+  meth_covered tb c m = true -> m <> MGet -> m <> MNe -> wraps tb c m = true.
 Proof.
   unfold meth_covered, wraps. destruct (meth_status tb c m); auto; destruct m; congruence.
 Qed.
@@ -198,9 +198,9 @@ Proof.
   apply one_cs_bind_pure; [apply pure_ret_of|]. apply one_cs_with_lock. exact H.
 Qed.
 
-Lemma wraps_status tb c m : wraps tb c m = false -> meth_covered tb c m = true -> m = MGet.
+Lemma wraps_status tb c m : wraps tb c m = false -> meth_covered tb c m = true -> m = MGet \/ m = MNe.
 Proof.
-  unfold wraps, meth_covered. destruct (meth_status tb c m); try discriminate; destruct m; congruence.
+  unfold wraps, meth_covered. destruct (meth_status tb c m); try discriminate; destruct m; intros; try discriminate; auto.
 Qed.
 
 Theorem compile_one_cs tb c :
@@ -210,13 +210,13 @@ Proof.
   intros T o.
   assert (CV : forall m, In m locked_meths -> meth_covered tb (cf_kind c) m = true)
     by (intros; apply covered_meth; assumption).
-  assert (CM : forall m, In m locked_meths -> m <> MGet -> wraps tb (cf_kind c) m = true)
-    by (intros m Hm Hn; apply covered_wraps; [apply CV; assumption|exact Hn]).
+  assert (CM : forall m, In m locked_meths -> m <> MGet -> m <> MNe -> wraps tb (cf_kind c) m = true)
+    by (intros m Hm Hn Hn2; apply covered_wraps; [apply CV; assumption|exact Hn|exact Hn2]).
   unfold compile_cfg. set (cls := cf_kind c) in *. set (mx := cf_max c). set (om := cf_miss c).
   destruct o; unfold compile.
-  - (* SetItem *) unfold m_setitem. apply locked_one_cs; [apply CM; [simpl; auto 20|discriminate]|].
+  - (* SetItem *) unfold m_setitem. apply locked_one_cs; [apply CM; [simpl; auto 30|discriminate|discriminate]|].
     setitem_body mx.
-  - (* GetItem *) unfold m_getitem. apply locked_one_cs; [apply CM; [simpl; auto 20|discriminate]|].
+  - (* GetItem *) unfold m_getitem. apply locked_one_cs; [apply CM; [simpl; auto 30|discriminate|discriminate]|].
     destruct cls.
     + apply bal_act. intro r. destruct r; try apply bal_ret; [apply bal_stat; apply bal_read_value|apply bal_stat; apply bal_on_miss].
     + apply bal_bind0; [apply bal_move|]. intro r. destruct r as [l|e]; [apply bal_stat; apply bal_read_value|].
@@ -231,37 +231,47 @@ Proof.
       apply one_cs_bind_pure.
       * intro r. destruct r as [v|e]; [eexists; apply post_ret|].
         destruct e; eexists; try (apply post_stat); apply post_ret.
-      * unfold m_getitem, locked. rewrite (CM MGetItem) by (simpl; auto 20; discriminate).
+      * unfold m_getitem, locked. rewrite (CM MGetItem) by (simpl; auto 30; discriminate).
         apply one_cs_with_lock. destruct cls.
         -- apply bal_act. intro r. destruct r; try apply bal_ret; [apply bal_stat; apply bal_read_value|apply bal_stat; apply bal_on_miss].
         -- apply bal_bind0; [apply bal_move|]. intro r. destruct r as [l|e]; [apply bal_stat; apply bal_read_value|].
            destruct e; try apply bal_ret. apply bal_stat. apply bal_on_miss.
-  - (* DelItem *) unfold m_delitem. apply locked_one_cs; [apply CM; [simpl; auto 20|discriminate]|].
+  - (* DelItem *) unfold m_delitem. apply locked_one_cs; [apply CM; [simpl; auto 30|discriminate|discriminate]|].
     unfold do_. apply bal_act. intro r. destruct r; try apply bal_ret. apply bal_remove.
-  - (* Pop *) unfold m_pop. apply locked_one_cs; [apply CM; [simpl; auto 20|discriminate]|].
+  - (* Pop *) unfold m_pop. apply locked_one_cs; [apply CM; [simpl; auto 30|discriminate|discriminate]|].
     apply bal_act. intro r. destruct r; try apply bal_ret.
     + unfold bindr. apply bal_bind0; [apply bal_remove|]. intro a. destruct a; apply bal_ret.
     + destruct d; apply bal_ret.
-  - (* PopItem *) unfold m_popitem. apply locked_one_cs; [apply CM; [simpl; auto 20|discriminate]|].
+  - (* PopItem *) unfold m_popitem. apply locked_one_cs; [apply CM; [simpl; auto 30|discriminate|discriminate]|].
     apply bal_act. intro r. destruct r; try apply bal_ret.
     unfold bindr. apply bal_bind0; [apply bal_remove|]. intro a. destruct a; apply bal_ret.
-  - (* Clear *) unfold m_clear. apply locked_one_cs; [apply CM; [simpl; auto 20|discriminate]|].
+  - (* Clear *) unfold m_clear. apply locked_one_cs; [apply CM; [simpl; auto 30|discriminate|discriminate]|].
     unfold do_. apply bal_act. intro r. destruct r; try apply bal_ret. apply bal_init_ll.
-  - (* SetDefault *) unfold m_setdefault. apply locked_one_cs; [apply CM; [simpl; auto 20|discriminate]|].
+  - (* SetDefault *) unfold m_setdefault. apply locked_one_cs; [apply CM; [simpl; auto 30|discriminate|discriminate]|].
     apply bal_bind0; [apply bal_getitem|].
     intro r. destruct r as [v|e]; [apply bal_ret|]. destruct e; try apply bal_ret. apply bal_stat.
     unfold bindr. apply bal_bind0; [apply bal_setitem|]. intro a. destruct a; apply bal_ret.
-  - (* Update *) unfold m_update. apply locked_one_cs; [apply CM; [simpl; auto 20|discriminate]|].
+  - (* Update *) unfold m_update. apply locked_one_cs; [apply CM; [simpl; auto 30|discriminate|discriminate]|].
     apply bal_setitems.
-  - (* Ior *) unfold m_ior. apply locked_one_cs; [apply CM; [simpl; auto 20|discriminate]|].
+  - (* Ior *) unfold m_ior. apply locked_one_cs; [apply CM; [simpl; auto 30|discriminate|discriminate]|].
     apply bal_update.
-  - (* EqDict *) unfold m_eq_dict. apply locked_one_cs; [apply CM; [simpl; auto 20|discriminate]|].
+  - (* EqDict *) unfold m_eq_dict. apply locked_one_cs; [apply CM; [simpl; auto 30|discriminate|discriminate]|].
     bal_tac.
-  - (* EqSelf *) unfold m_eq_self. apply locked_one_cs; [apply CM; [simpl; auto 20|discriminate]|].
+  - (* EqSelf *) unfold m_eq_self. apply locked_one_cs; [apply CM; [simpl; auto 30|discriminate|discriminate]|].
     apply bal_ret.
-  - (* Copy *) unfold m_copy. apply locked_one_cs; [apply CM; [simpl; auto 20|discriminate]|].
+  - (* Copy *) unfold m_copy. apply locked_one_cs; [apply CM; [simpl; auto 30|discriminate|discriminate]|].
     unfold anchor_get. apply bal_act. intro r. destruct r; try apply bal_ret. apply bal_copy_body.
-  - (* Len *) unfold m_len. apply locked_one_cs; [apply CM; [simpl; auto 20|discriminate]|]. bal_tac.
-  - (* Contains *) unfold m_contains. apply locked_one_cs; [apply CM; [simpl; auto 20|discriminate]|]. bal_tac.
-  - (* Snapshot *) unfold m_snapshot. apply locked_one_cs; [apply CM; [destruct w; simpl; auto 30|destruct w; discriminate]|]. bal_tac.
+  - (* Len *) unfold m_len. apply locked_one_cs; [apply CM; [simpl; auto 30|discriminate|discriminate]|]. bal_tac.
+  - (* Contains *) unfold m_contains. apply locked_one_cs; [apply CM; [simpl; auto 30|discriminate|discriminate]|]. bal_tac.
+  - (* Snapshot *) unfold m_snapshot. apply locked_one_cs; [apply CM; [destruct w; simpl; auto 30|destruct w; discriminate|destruct w; discriminate]|]. bal_tac.  - (* NeDict *) unfold m_ne, locked. destruct (wraps tb cls MNe) eqn:W.
+    + unfold ret_of. apply one_cs_bind_pure; [apply pure_ret_of|]. apply one_cs_with_lock.
+      apply bal_bind0; [apply bal_eq_dict|]. intro r. destruct r; apply bal_ret.
+    + unfold with_lock, ret_of.
+      apply one_cs_bind_pure; [apply pure_ret_of|].
+      apply one_cs_bind_pure.
+      * intro r. destruct r; eexists; apply post_ret.
+      * unfold m_eq_dict, locked. rewrite (CM MEq) by (simpl; auto 30; discriminate).
+        apply one_cs_with_lock. bal_tac.
+  - (* CopyCopy *) unfold m_copy2. apply locked_one_cs; [apply CM; [simpl; auto 30|discriminate|discriminate]|].
+    apply bal_copy.
 Qed.
